@@ -423,6 +423,34 @@ fn sem_file(s: &mut Src) -> String {
     out
 }
 
+/// a long library module exporting an enum and constants whose initialisers are partly outside what typeof can read,
+/// and a short entry that reads them by value: whatever is reported has to be located in the file it is about
+fn cross_module_values(s: &mut Src) -> Vec<(String, String)> {
+    const INITS: [&str; 14] = ["1 << 0", "-1", "\"x\".length", "1", "\"s\"", "A + 1", "`t${1}`", "~0", "(1)", "Math.max(1, 2)", "1 + 2", "\"a\" + \"b\"", "foo()", "2"];
+    const VALUES: [&str; 12] = ["1", "\"v\"", "new Date()", "() => 1", "1 + 2", "[1, ...[2]]", "foo()", "unknownName", "{ n: -1 }", "null", "Flags.A", "`t${\"x\"}`"];
+    let mut lib = String::new();
+    for i in 0..s.range(0, 30) {
+        lib.push_str(&format!("// padding line {} so that positions in this file do not fit into the entry\n", i));
+    }
+    let members: Vec<String> = ["A", "B", "C"].iter().map(|m| if s.chance(1, 5) { m.to_string() } else { format!("{} = {}", m, s.pick(&INITS)) }).collect();
+    lib.push_str(&format!("export enum Flags {{ {} }}\n", members.join(", ")));
+    lib.push_str(&format!("export const obj = {{ k: {}, j: {} }}{};\n", s.pick(&VALUES), s.pick(&VALUES), if s.chance(1, 2) { " as const" } else { "" }));
+    if s.chance(1, 2) {
+        lib.push_str(&format!("export default {};\n", s.pick(&VALUES)));
+    }
+    let mut entry = String::new();
+    entry.push_str(if s.chance(1, 4) { "import * as lib from \"./e\";\nconst Flags = lib.Flags;\nconst obj = lib.obj;\n" } else { "import { Flags, obj } from \"./e\";\n" });
+    if s.chance(1, 3) {
+        entry.push_str("import d from \"./e\";\n");
+    }
+    entry.push_str(&format!("const v = Flags.{};\n", s.pick(&["A", "B", "C", "Z"])));
+    let reads = ["typeof v", "typeof obj", "typeof Flags.A", "typeof Flags.B", "typeof obj.k", "typeof obj.j", "Flags", "Flags.C", "typeof Flags", "typeof d", "keyof typeof obj"];
+    let n = s.range(1, 4);
+    let ps: Vec<String> = (0..n).map(|i| format!("P{}: {}", i, s.pick(&reads))).collect();
+    entry.push_str(&format!("parse.buildParsers<{{ {} }}>();\n", ps.join("; ")));
+    vec![("entry.ts".to_string(), entry), ("e.ts".to_string(), lib)]
+}
+
 fn wild_file(s: &mut Src, others: &[&str], with_build: bool) -> String {
     let mut out = wild_imports(s, others);
     let n = s.range(0, 5);
@@ -621,7 +649,7 @@ impl C04 {
             1 => vec!["int".into()],
             _ => crate::den::NUMBER_FORMATS.iter().map(|x| x.to_string()).chain(["age".to_string()]).collect(),
         };
-        let kind = s.weighted(&[4, 4, 2, 3, 1, 4]);
+        let kind = s.weighted(&[4, 4, 2, 3, 1, 4, 2]);
         let (files, kind_name): (Vec<(String, String)>, &str) = match kind {
             0 => (vec![("entry.ts".to_string(), wild_file(s, &["a", "b", "missing"], true))], "wild_single"),
             1 if !corp.is_empty() => {
@@ -643,6 +671,7 @@ impl C04 {
                 (files, "wild_multi")
             }
             5 => (vec![("entry.ts".to_string(), sem_file(s))], "semantic_operators"),
+            6 => (cross_module_values(s), "cross_module_values"),
             _ => {
                 let txt = if corp.is_empty() { String::new() } else { corp[s.below(corp.len())].clone() };
                 (vec![("entry.ts".to_string(), txt)], "corpus_verbatim")
